@@ -1,14 +1,14 @@
-\* thorough tier: two mountpoints, two blobs, all label kinds (22.5M states, ~11 min on 4 workers)
+\* generation, one caller: every step of Mount/Check/Unmount with every environment choice
 CONSTANTS
     MPs = {"m1", "m2"}
     Blobs = {"b1", "b2"}
     Labs = {"ok", "bad", "skip", "none", "malformed", "mirror"}
     Ops = {"Mount", "Check", "Unmount"}
     MaxCalls = 3
-    MaxConc = 2
+    MaxConc = 1
     MaxObj = 3
     SameMp = FALSE
-    OneMount = FALSE
+    OneMount = TRUE
     AllowNoVerif = TRUE
     DisableVerif = FALSE
     NoPrefetch = FALSE
@@ -23,8 +23,7 @@ CONSTANTS
     CheckOwnKey = TRUE
     DoneAlways = TRUE
     BgRespectsPrio = TRUE
-SPECIFICATION Spec
+INIT GenInit
+NEXT GenNext
 VIEW core
-INVARIANTS TypeOK MountedIffInMap MountedLayerAlive NoUnverifiedMountUnlessAllowed NoUnverifiedInMap DoDoneBalanced
-PROPERTIES FailedMountLeavesNothing UnmountReleasesLayer CheckReachesOwnLayer BackgroundFetchOnlyAfterMountReturns
 CHECK_DEADLOCK FALSE
